@@ -137,9 +137,11 @@ def _run(mod, ch):
     finally:
         sys.stdout, sys.stderr = out_save, err_save
         os.environ.pop("JPY_PARENT_PID", None)      # set by runs that draw terminal-like progress output
+        os.environ.pop("SLURM_NPROCS", None)        # set by runs that hand the worker count over through the environment
         try:
             from .props import common as _common
             _common.PROGRESS.clear()
+            _common.VIA_ENV[0] = None
         except Exception:
             pass
     if _kernel.WALL_TIMEOUTS[0] != wt0:
